@@ -312,6 +312,14 @@ static inline int spec_gm_div_i64_ok(uint64_t q, uint64_t r, uint64_t n, uint64_
   uint64_t qq = (q1 ^ dsign) - dsign;
   return q == qq && r == n - (uint64_t)AVM_MUL_i64((int64_t)qq, (int64_t)d);
 }
+static inline uint32_t spec_shr_u32(uint32_t x, uint32_t c) { return c >= 32 ? 0u : x >> c; }
+/* one lane of a vector Denominator<vecNx32u>: fields m, sh1 (0 / 1, a mask lane), sh2, d -- no d == 1 special case there
+ * (sh1 = min(l, 1) encodes it); products through the 64-bit multiplier the pmuludq / pmulld models use */
+static inline int spec_gm_div_u32_lane_ok(uint32_t q, uint32_t r, uint32_t n, uint32_t m, _Bool sh1, uint32_t sh2, uint32_t d) {
+  uint32_t t1 = (uint32_t)(AVM_MUL_u64((uint64_t)m, (uint64_t)n) >> 32);
+  uint32_t qq = spec_shr_u32(t1 + (sh1 ? ((n - t1) >> 1) : (n - t1)), sh2);
+  return q == qq && (r == (uint32_t)(n - (uint32_t)AVM_MUL_u64((uint64_t)qq, (uint64_t)d)) || r == (uint32_t)(n - (uint32_t)AVM_MUL_u64((uint64_t)d, (uint64_t)qq)));
+}
 static inline int spec_gm_div_u64_ok(uint64_t q, uint64_t r, uint64_t n, uint64_t m, uint64_t sh2, uint64_t d) {
   if (d == 1) return q == n && r == 0;
   uint64_t t1 = (uint64_t)(AVM_MUL_u128((unsigned __int128)m, (unsigned __int128)n) >> 64);
